@@ -195,8 +195,13 @@ pub fn record(mode: &str, seed: u64, n: usize, out: &mut Out) {
                     if at + 4 <= b.len() { b[at..at + 4].copy_from_slice(&pat); }
                 }
             }
-            stream.extend(b);
-            bounds.push(stream.len());
+            // the same message again, byte for byte (an application that logs the same line twice without a counter or a clock):
+            // every copy is a message of its own
+            let copies = if r.one_in(4) && !b.is_empty() { 1 + r.below(3) as usize } else { 0 };
+            for _ in 0..=copies {
+                stream.extend(&b);
+                bounds.push(stream.len());
+            }
         }
         if out.events % 40 == 7 {
             // a message beyond 32 KiB in the stream (legal up to 64 KiB)
